@@ -559,7 +559,7 @@ func (w *c15World) servePRM(req *http.Request, loc int, asked string) (*http.Res
 		"jwks_uri": "https://rs-" + m + ".example/jwks", "resource_documentation": "https://rs-" + m + ".example/docs", "resource_policy_uri": "https://rs-" + m + ".example/policy"}
 	if f, ok := strings.CutPrefix(variant, "url-script:"); ok {
 		// any other URL member of the document with a script-capable scheme (the document is otherwise impeccable)
-		doc[f] = c15Schemes[(loc+len(asked)+len(f))%len(c15Schemes)] + "rs-" + m
+		doc[f] = c15Schemes[(loc+len(asked)+len(f)+w.c.Index)%len(c15Schemes)] + "rs-" + m
 	}
 	return jsonResp(req, 200, "application/json; charset=utf-8", vh.JSON(doc)), ""
 }
@@ -641,7 +641,7 @@ func (w *c15World) serveASM(req *http.Request, loc int, issuerPath string) (*htt
 		doc[f] = "http://127.0.0.1.ep-" + m + ".example/token/" + m
 	case strings.HasPrefix(variant, "ep-script:"):
 		f := strings.TrimPrefix(variant, "ep-script:")
-		doc[f] = c15Schemes[(w.nextMarker+len(f))%len(c15Schemes)] + "ep-" + m + ".example/" + m
+		doc[f] = c15Schemes[(w.nextMarker+len(f)+w.c.Index)%len(c15Schemes)] + "ep-" + m + ".example/" + m
 	}
 	return jsonResp(req, 200, "application/json", vh.JSON(doc)), ""
 }
